@@ -196,6 +196,11 @@ def valid_case(case):
                     and case.get("u", "std") in UNIVERSES)
         if case["kind"] == "cmdline":
             return (case["ast"] == ["true"] or valid_ast(case["ast"])) and case.get("wip") in (None, "first", "last")
+        if case["kind"] == "placeholder-unconfigured":
+            t = case["template"]
+            return valid_ast(t, ("tag", "glob", "cfg")) and _count_cfg(t) >= 1 and case["tform"] in ("text", "list")
+        if case["kind"] == "run-protocol":
+            return case["protocol"] in PROTOCOL_WORDS and case.get("tags") in (None, "a,b", "a")
         if case["kind"] == "glob":
             return isinstance(case.get("pattern"), str) and bool(case["pattern"])
         if case["kind"] == "placeholder":
@@ -220,7 +225,132 @@ def check(case):
         return check_glob(case)
     if kind == "cmdline":
         return check_cmdline(case)
+    if kind == "run-protocol":
+        return check_run_protocol(case)
+    if kind == "placeholder-unconfigured":
+        return check_placeholder_unconfigured(case)
     raise ValueError(kind)
+
+
+def check_placeholder_unconfigured(case):
+    """The placeholder is used although no default tags are configured (the configured expression is the empty one,
+    which selects everything).  behave may refuse the expression; when it accepts it, the result denotes the template
+    with 'true' in place of the placeholder."""
+    from behave.configuration import Configuration
+    from behave.tag_expression import TagExpressionProtocol
+    from behave.tag_expression.parser import TagExpressionError
+    res = CaseResult()
+    template, tv, tform = case["template"], case["tv"], case["tform"]
+    tag_args = render_template(template, tv, tform)
+    final = substitute(template, ["true"])
+    res.nontrivial = True
+    res.evals = len(SUBSETS)
+    res.label("placeholder-unconfigured")
+    args = ["--tags=" + t for t in tag_args]
+    try:
+        try:
+            config = Configuration(list(args), load_config=False, tag_expression_protocol=TagExpressionProtocol.V2)
+        except TagExpressionError:
+            res.label("placeholder-unconfigured:refused")
+            return res
+        res.label("placeholder-unconfigured:accepted")
+        want = expected_table(final)
+        got = behave_table(config.tag_expression)
+        diff = first_diff(want, got)
+        if diff:
+            res.fail("C07.placeholder.unconfigured", "no configured tags, command line %r: accepted as %r; for tags %s the "
+                     "template with an always-true placeholder is %s, check() says %s"
+                     % (args, config.tag_expression, diff[0], diff[1], diff[2]), args=args)
+    finally:
+        TagExpressionProtocol.use(TagExpressionProtocol.DEFAULT)
+    return res
+
+
+def placeholder_unconfigured_enum():
+    for i, template in enumerate(FIXED_TEMPLATES + UNCONFIGURED_TEMPLATES):
+        for tv in (0, 1, 4, 16):
+            for tform in ("text", "list"):
+                if tform == "list" and template[0] != "and":
+                    continue
+                yield {"kind": "placeholder-unconfigured", "template": template, "tv": tv, "tform": tform}
+
+
+UNCONFIGURED_TEMPLATES = [
+    ["and", ["not", ["cfg"]], ["tag", "a"]],
+    ["and", ["tag", "a"], ["not", ["cfg"]]],
+    ["or", ["and", ["not", ["cfg"]], ["tag", "a"]], ["tag", "b"]],
+    ["and", ["cfg"], ["tag", "a"]],
+    ["and", ["tag", "a"], ["cfg"]],
+    ["and", ["tag", "a"], ["cfg"], ["tag", "b"]],
+    ["or", ["cfg"], ["tag", "a"]],
+    ["not", ["and", ["cfg"], ["tag", "a"]]],
+    ["and", ["not", ["cfg"]], ["not", ["tag", "a"]]],
+    ["cfg"],
+]
+
+
+PROTOCOL_WORDS = {"v1": "V1", "v2": "V2", "strict": "V2", "auto_detect": "AUTO_DETECT", "V2": "V2", "Strict": "V2",
+                  None: "AUTO_DETECT"}
+
+
+def check_run_protocol(case):
+    """`python -m behave` with tag_expression_protocol in behave.ini: the dialect the configuration selected is the
+    one in force for the whole run -- the expression of --tags is read with it, and expressions that hooks build with
+    make_tag_expression() (no protocol given) are read with it too."""
+    from .. import disk
+    from ..program import normalize
+    import copy
+    import json
+    import subprocess
+    import sys
+    res = CaseResult()
+    word, tags = case["protocol"], case.get("tags")
+    prog = {"features": [{"tags": [], "items": [
+        {"k": "s", "tags": ["a"], "steps": [{"kw": "Given", "o": "pass"}]},
+        {"k": "s", "tags": ["b"], "steps": [{"kw": "Given", "o": "pass"}]},
+        {"k": "s", "tags": ["a,b"], "steps": [{"kw": "Given", "o": "pass"}]}]}], "probe_protocol": True}
+    normalize(prog)
+    ini = u"[behave]\n" + (u"tag_expression_protocol = %s\n" % word if word else u"")
+    proj = disk.Project(prog, extra_files={"../behave.ini": ini})
+    try:
+        args = ["--tags=%s" % tags] if tags else []
+        p = subprocess.run([sys.executable, "-m", "behave", "-f", "plain", "--no-color"] + args, cwd=proj.root,
+                           env=disk.child_env(proj.root), stdout=subprocess.PIPE, stderr=subprocess.PIPE, timeout=120)
+        log = {}
+        if os.path.exists(os.path.join(proj.root, "vf_log.json")):
+            with open(os.path.join(proj.root, "vf_log.json")) as f:
+                log = json.load(f)
+    finally:
+        proj.close()
+    want = PROTOCOL_WORDS[word]
+    res.nontrivial = True
+    res.label("run-protocol", "run-protocol:" + want, "run-protocol:tags" if tags else "run-protocol:no-tags")
+    notes = [n for n in log.get("notes", []) if n.get("kind") == "protocol"]
+    if p.returncode != 0 or not notes:
+        res.fail("C07.run-protocol.run", "behave.ini %r, args %r: exit status %d, %d observations; output %r"
+                 % (ini, args, p.returncode, len(notes), (p.stdout + p.stderr).decode("utf-8", "replace")[-300:]))
+        return res
+    # 'a,b' is one tag name in the new dialect and the alternative a-or-b in the old one
+    want_match = {"V1": True, "V2": False, "AUTO_DETECT": True}[want]
+    for n in notes:
+        if n["value"] != want or n["a,b matches [a]"] != want_match:
+            res.fail("C07.run-protocol.in-force", "behave.ini %r, args %r: in %s the dialect in force is %s (configured: %s); "
+                     "make_tag_expression('a,b') matches the tags [a]: %s (expected %s)"
+                     % (ini, args, n["hook"], n["value"], want, n["a,b matches [a]"], want_match))
+            break
+    if tags == "a,b":
+        ran = sorted(set(name for name, _uid in log.get("calls", [])))
+        want_ran = ["S2"] if want == "V2" else ["S0", "S1"]
+        if ran != want_ran:
+            res.fail("C07.run-protocol.selection", "behave.ini %r, --tags=a,b: scenarios %r ran, expected %r"
+                     % (ini, ran, want_ran))
+    return res
+
+
+def run_protocol_enum():
+    for word in (None, "v1", "v2", "strict", "auto_detect", "V2", "Strict"):
+        for tags in (None, "a,b", "a"):
+            yield {"kind": "run-protocol", "protocol": word, "tags": tags}
 
 
 GLOB_TAG_ALPHABET = "ab."
@@ -670,9 +800,15 @@ def explore(rec):
     rec.hyp("random-trees", random_expr_st(), 12000 if quick else 400000)
     rec.enum("placeholder/small-configs-x-templates", placeholder_enum(ENUM_OPERANDS, 3 if quick else 4))
     rec.hyp("placeholder/random", placeholder_st(), 6000 if quick else 120000)
+    rec.enum("placeholder/no-configured-tags/fixed-templates", placeholder_unconfigured_enum())
+    rec.hyp("placeholder/no-configured-tags/random", st.builds(
+        lambda t, tv, tf: {"kind": "placeholder-unconfigured", "template": t, "tv": tv, "tform": tf},
+        template_st(RANDOM_OPERANDS), st.sampled_from([0, 1, 2, 4, 5, 16, 17]), st.sampled_from(["text", "list"])),
+        1500 if quick else 30000)
     rec.enum("escaped-operands", escaped_cases())
     rec.enum("command-line/trees<=4-nodes/with-and-without---wip", cmdline_enum())
     rec.hyp("command-line/random", cmdline_st(), 4000 if quick else 100000)
+    rec.enum("configured dialect in force during the run (python -m behave)", run_protocol_enum())
     rec.enum("operator-like-tag-names/trees<=3-nodes", kw_enum())
     rec.hyp("operator-like-tag-names/random", kw_expr_st(), 4000 if quick else 100000)
     rec.enum("wildcard-patterns<=%d x all tags<=3" % (4 if quick else 5), glob_cases(4 if quick else 5))
@@ -685,10 +821,12 @@ def required_labels(tier):
             "depth:3", "depth:5", "placeholder:substituted", "placeholder:no-command-line-tags",
             "escaped-wildcard", "escaped-literal", "glob-edge", "glob-edge:overlap-candidate",
             "rendering:term-of-parenthesised-groups", "glob-edge:character-class", "glob-edge:character-class-next-to-star",
-            "operator-like-tag-names", "command-line", "command-line:--wip", "command-line:terms=3"] + ["placeholder:" + v for v in VIAS]
+            "operator-like-tag-names", "command-line", "command-line:--wip", "command-line:terms=3", "placeholder-unconfigured", "run-protocol:V1", "run-protocol:V2", "run-protocol:AUTO_DETECT"] + ["placeholder:" + v for v in VIAS]
 
 
 KNOWN_PREDICATES = {}
 
 
 RULE = RULE + " " + ("Further sub-checks: a second universe with operator-like tag names (OR-1, NOT.x, k=And, Or, AND; OR-* wildcards) that are operands, never operators; the command-line route (one --tags option per term of a real Configuration, with and without --wip); rendering 32 = a term that starts with '(' and ends with ')' without being one group.")
+RULE = RULE + " " + ("21 child-process runs with tag_expression_protocol set in behave.ini: hooks observe the dialect in force (and what make_tag_expression('a,b') means) during the run; --tags=a,b selects accordingly.")
+RULE = RULE + " " + ("The placeholder without any configured tags: refused, or -- when accepted -- equal to the template with an always-true placeholder.")
